@@ -457,6 +457,9 @@ impl NodeSys {
             CK::Skip => (VK::Skip, Some(VK::SkipFb)),
             CK::Final => (VK::Final, None),
         };
+        // blk | 0x80: the Byzantine validator signs *both* halves of a mixed certificate
+        let overlap = blk & 0x80 != 0 && matches!(kind, CK::Skip | CK::NotarFb) && self.byz.is_some();
+        let blk = blk & 0x7f;
         let b = if matches!(kind, CK::Skip | CK::Final) { 0 } else { blk };
         let mut s1 = 0u32;
         let mut s2 = 0u32;
@@ -479,6 +482,15 @@ impl NodeSys {
         }
         let stake: u64 = (0..self.epoch.n()).filter(|i| (s1 | s2) >> i & 1 == 1).map(|i| self.epoch.stakes[i]).sum();
         let need = if kind == CK::FastFinal { 4 } else { 3 };
+        if overlap {
+            // only interesting when the distinct stake is insufficient but a double count would pass;
+            // a correct validator rejects it (the Forge action is then a no-op)
+            let z = self.byz.unwrap();
+            if self.epoch.meets(stake, need, 5) || !self.epoch.meets(stake + self.epoch.stakes[z], need, 5) {
+                return None;
+            }
+            return Some(CertSpec { kind, slot, blk: b, s1, s2: s2 | 1 << z });
+        }
         if !self.epoch.meets(stake, need, 5) {
             return None;
         }
